@@ -23,6 +23,17 @@ fn eval(expr: &str) -> String {
   }
 }
 
+fn model(ns: &str, name: &str) -> dmntk_model::model::Definitions {
+  let xml = format!(r#"<?xml version="1.0" encoding="UTF-8"?>
+<definitions namespace="{}" name="{}" id="_d1" xmlns="https://www.omg.org/spec/DMN/20191111/MODEL/">
+  <decision name="Greeting Message" id="_dec1">
+    <variable typeRef="string" name="Greeting Message"/>
+    <literalExpression><text>"Hello"</text></literalExpression>
+  </decision>
+</definitions>"#, ns, name);
+  dmntk_model::parse(&xml).unwrap()
+}
+
 fn main() {
   std::panic::set_hook(Box::new(|_| {}));
   let args: Vec<String> = std::env::args().collect();
@@ -42,6 +53,24 @@ fn main() {
       let f0s = FeelType::function(&[], &FeelType::String);
       println!("function<>->number equivalent function<>->string => {}", f0n.is_equivalent(&f0s));
       println!("function<>->number conformant function<>->string => {}", f0n.is_conformant(&f0s));
+    }
+    Some("workspace") => {
+      // ops: add:<ns>,<name>  remove:<ns>,<name>  replace:<ns>,<name>  clear  deploy  eval:<name>
+      let mut ws = dmntk_workspace::Workspace::new(None);
+      for op in &args[2..] {
+        let (cmd, rest) = match op.split_once(':') { Some((c, r)) => (c, r), None => (op.as_str(), "") };
+        let (ns, name) = rest.split_once(',').unwrap_or((rest, ""));
+        let out = match cmd {
+          "add" => format!("{:?}", ws.add(model(ns, name)).map_err(|e| e.to_string())),
+          "replace" => format!("{:?}", ws.replace(model(ns, name)).map_err(|e| e.to_string())),
+          "remove" => { ws.remove(ns, name); "()".to_string() }
+          "clear" => { ws.clear(); "()".to_string() }
+          "deploy" => format!("{:?}", ws.deploy().map_err(|e| e.to_string())),
+          "eval" => format!("{:?}", ws.evaluate_invocable(rest, "Greeting Message", &dmntk_feel::context::FeelContext::default()).map(|v| v.to_string()).map_err(|e| e.to_string())),
+          _ => "?".to_string(),
+        };
+        println!("{} => {}", op, out);
+      }
     }
     _ => eprintln!("usage"),
   }
